@@ -42,11 +42,17 @@ CLAIMED['C12'] = dict(
          'fault schedule (Gen_CleanWrite); each is replayed against the real parseAndWriteOutput and main() with '
          'faults injected at the I/O seam (open/write/flush/close of the output object, sys.stdout) and os.remove '
          'recorded; the recorded event sequence is folded through the spec\'s effect operators by TLC and Safe is '
-         'evaluated in every intermediate state, together with the final on-disk state.',
-    design='DESIGN.md 4.10, 5 C12',
+         'evaluated in every intermediate state, together with the final on-disk state.  CleanWriteN.tla lifts the '
+         'protocol to the whole -j -c loop: any set of files, any number of write calls, any step failing, the process '
+         'dying anywhere; its THEOREM Safety is proved with the TLA+ proof system (tlapm, 46 obligations, re-checked on '
+         'every run), a TLC instance checks the inductive invariant for 3 files x 2 write calls, and TLC enumerates ALL '
+         '7483 behaviours of that instance (2058 complete, 5425 ending in a crash), which are replayed step by step '
+         'through the real `peltool -j -c` (quick: a stratified sample) - the disk must end in the state the behaviour '
+         'ends in.  Crash points and RLIMIT_FSIZE runs in subprocesses complete the picture.',
+    design='DESIGN.md 4.10, 5 C12, 17',
     note='Trusted: TLC; fault injection at the Python I/O seam stands for ENOSPC/EIO/EPIPE.  For --file the document '
          'counts as emitted once stdout was flushed successfully.',
-    technique='TLC model checking of CleanWrite.tla (all fault choices and crash points) + TLC-generated fault schedules replayed into the real code, event traces validated by TLC')
+    technique='TLC model checking of CleanWrite.tla / CleanWriteN.tla + TLAPS proof of the multi-file protocol (unbounded) + TLC-enumerated behaviours and fault schedules replayed into the real code, event traces and disk states validated by TLC')
 
 CLAIMED['C11'] = dict(
     text='PelDir.tla states the allowed effect of every CLI mode on the directory tree (frame condition for read-only '
